@@ -10,7 +10,19 @@
    (b, result, true): it yields the message sequence tr, the receiver's labels
    res and the new stream position; [sender_run] is IKNPSender.Send(n, true) on
    a (possibly rewritten) message sequence with the sender's streams
-   (column j: g1 j if Delta_j else g0 j). *)
+   (column j: g1 j if Delta_j else g0 j).
+
+   Scope.  The theorems are about the IKNP/KOS core (IKNPReceiver.Receive /
+   IKNPSender.Send with malicious = true).  The exported wrappers that offer
+   malicious mode - ot.COT and ot.ROT (NewCOT / NewROT with malicious = true;
+   vole and gmw call IKNP only with malicious = false or through the bit form,
+   which has no check) - are thin: X.Send = IKNPSender.Send(n, true) followed by
+   the hashed pads.  They are not modelled; harness/c15wrap.go ties their ERROR
+   PROPAGATION to the core on every run: each deviation of the catalogue that
+   the direct IKNPSender.Send rejects must make COT.Send / ROT.Send return a
+   non-nil error with nothing sent and no wire set, each accepted one must not
+   fail, honest wrapper runs must transfer the chosen labels; plus a static
+   inventory of deferred closures in ot/*.go that overwrite a named result. *)
 From Coq Require Import ZArith NArith List Bool.
 From Mpc Require Import OT.Gf128 OT.Gf128Proof OT.Kos OT.KosProof OT.RunC15 Gen.Consts.
 Import ListNotations.
